@@ -640,7 +640,9 @@ func premSlotsCap(c *Ctx) (bool, string) {
 	return ok, why
 }
 
-// positions: newPos stores indexes returned by lookup.Index of keys starting with '#'.
+// positions: newPos interns two keys with a non-empty constant prefix and packs
+// every component masked to the 16 bits pos.info reads back, so a large line or
+// column number cannot spill into the neighbouring index field.
 func premPosKeys(c *Ctx) (bool, string) {
 	fd := c.Func("newPos")
 	if fd == nil {
@@ -664,6 +666,67 @@ func premPosKeys(c *Ctx) (bool, string) {
 	})
 	if n < 2 || !ok {
 		return false, fmt.Sprintf("newPos no longer interns two keys with a non-empty constant prefix (%d found)", n)
+	}
+	// the packed expression: every operand of the |-chain is masked with 0xffff before it is shifted
+	var ret *ast.ReturnStmt
+	ast.Inspect(fd.Body, func(m ast.Node) bool {
+		if rs, isR := m.(*ast.ReturnStmt); isR {
+			ret = rs
+		}
+		return true
+	})
+	if ret == nil || len(ret.Results) != 1 {
+		return false, "newPos has no single return"
+	}
+	var terms []ast.Expr
+	var split func(e ast.Expr)
+	split = func(e ast.Expr) {
+		e = unparen(e)
+		if call, isC := e.(*ast.CallExpr); isC {
+			if _, conv := c.IsConversion(call); conv && len(call.Args) == 1 {
+				split(call.Args[0])
+				return
+			}
+		}
+		if be, isB := e.(*ast.BinaryExpr); isB && be.Op == token.OR {
+			split(be.X)
+			split(be.Y)
+			return
+		}
+		terms = append(terms, e)
+	}
+	split(ret.Results[0])
+	if len(terms) != 4 {
+		return false, fmt.Sprintf("newPos packs %d components, expected 4", len(terms))
+	}
+	masked := func(e ast.Expr) bool {
+		e = unparen(e)
+		if be, isB := e.(*ast.BinaryExpr); isB && be.Op == token.SHL {
+			e = unparen(be.X)
+		}
+		for {
+			if call, isC := e.(*ast.CallExpr); isC {
+				if _, conv := c.IsConversion(call); conv && len(call.Args) == 1 {
+					e = unparen(call.Args[0])
+					continue
+				}
+			}
+			break
+		}
+		be, isB := e.(*ast.BinaryExpr)
+		if !isB || be.Op != token.AND {
+			return false
+		}
+		k, isK := c.ConstInt(be.Y)
+		if !isK {
+			k, isK = c.ConstInt(be.X)
+		}
+		return isK && k == 0xffff
+	}
+	for _, t := range terms {
+		if !masked(t) {
+			return false, "newPos packs `" + c.Src(t) + "` without masking it to 16 bits: a line or column >= 65536 spills into the neighbouring name index, and pos.info then looks up an index that does not exist"
+		}
 	}
 	return true, ""
 }
